@@ -46,7 +46,9 @@ RULE = ('kernels: seeded values in [-1e3,1e3] plus 0/inf/nan, coefficient number
         '= current value, None} for every variable class scaled and unscaled, and optimiser runs with a variable at 0 '
         'whose limit is 0 and the optimum beyond it; multi-optic block: one problem over 2-3 lenses, variables interleaved in '
         'orders AAB ABA BBA AABC BAAC AB CCBAB ABBCA BABA, pickup and/or marginal-ray-height solve on every lens, every front end, '
-        'contract checked per optic; pre-optimised block: every front end started from a locally optimised lens with wide bounds and '
+        'contract checked per optic; mirror corpus (single mirror, Newtonian, Cassegrain, catadioptric, three-mirror: negative gaps) '
+        'built via direct / reset()-and-reuse / to_dict-from_dict routes, every variable kind, read-back judged against the generated '
+        'prescription, plus optimise/undo of the negative gap through the front ends; pre-optimised block: every front end started from a locally optimised lens with wide bounds and '
         'maxiter 1-3 (np.random.seed), not-worse and start-vector-evaluated checked; (update() calls per optic, state, merit, bounds, pickup and solve residuals, undo); non-trivial = the optimiser moved at least one variable')
 PARTIAL = [
     'the state/merit/not-worse/bounds/undo theorems are about the REPAIRED optimize()/undo() (optimize_fixed, undo_fixed); '
@@ -226,7 +228,10 @@ def mkvar(rng, lens, c, bounded=None, scaled=None):
         v['min'] = raw - span * rng.uniform(0.5, 1.0)
         v['max'] = raw + span * rng.uniform(0.5, 1.0)
         if t == 'thickness':
-            v['min'] = max(v['min'], 0.5)
+            if raw > 0:
+                v['min'] = max(v['min'], 0.5)
+            else:
+                v['max'] = min(v['max'], -0.5)
         if t == 'index':
             v['min'] = max(v['min'], 1.3)
     return v
@@ -388,7 +393,7 @@ def gen_handle_cases(rng, n):
             span = SPAN[v['type']] if SPAN[v['type']] is not None else 10.0 ** (-5 - 2 * v['a'])
             newraw = raw + span * rng.uniform(-1, 1)
             if v['type'] == 'thickness':
-                newraw = max(newraw, 0.3)
+                newraw = max(newraw, 0.3) if raw > 0 else min(newraw, -0.3)     # gaps after an odd number of mirrors are negative
             x = py_scale(v, newraw) if v.get('scaled', True) else newraw
             ops.append([i, float(x).hex()])
         cases.append({'lens': lens, 'vars': vars_, 'ops': ops, 'coords': coords_for(lens, vars_)})
@@ -473,6 +478,90 @@ def gen_boundary_opt_cases(rng, n):
     return cases
 
 
+# ---------------------------------------------------------------------------------------------
+# fixed corpus: mirror systems (gaps after an odd number of mirrors have NEGATIVE thickness), reached through several
+# public construction routes; variables of every kind supported by the surfaces
+# ---------------------------------------------------------------------------------------------
+ROUTES = ['direct', 'reuse', 'roundtrip']
+
+
+def mirror_corpus():
+    M = dict(mirror=True, n=None)
+    return [
+        {'name': 'concave-mirror', 'surfs': [dict(M, radius=-200.0, conic=0.0, thickness=-90.0, stop=True)], 'epd': 20.0},
+        {'name': 'newtonian', 'surfs': [dict(M, radius=-400.0, conic=-1.0, thickness=-150.0, stop=True),
+                                        dict(M, radius=5000.0, conic=0.0, thickness=45.0)], 'epd': 30.0},
+        {'name': 'cassegrain', 'surfs': [dict(M, radius=-300.0, conic=-1.0, thickness=-100.0, stop=True),
+                                         dict(M, radius=-150.0, conic=-2.5, thickness=130.0)], 'epd': 30.0},
+        {'name': 'catadioptric', 'surfs': [{'radius': 180.0, 'conic': 0.0, 'thickness': 6.0, 'n': 1.52, 'stop': True},
+                                           {'radius': -400.0, 'conic': 0.0, 'thickness': 70.0, 'n': None},
+                                           dict(M, radius=-260.0, conic=0.0, thickness=-58.0, dy=0.05)], 'epd': 16.0},
+        {'name': 'three-mirror', 'surfs': [dict(M, radius=-500.0, conic=-1.1, thickness=-120.0, stop=True),
+                                           dict(M, radius=-220.0, conic=-3.0, thickness=110.0),
+                                           dict(M, radius=-380.0, conic=0.0, thickness=-95.0, rx=0.002)], 'epd': 25.0},
+    ]
+
+
+def _mirror_lens(t, route):
+    l = {k: v for k, v in t.items() if k != 'name'}
+    l['surfs'] = [dict(s_) for s_ in t['surfs']]
+    l.update({'fields': [0.0, 0.2], 'wl': [0.55], 'pickups': [], 'route': route, 'corpus': t['name']})
+    return l
+
+
+def gen_mirror_handle_cases():
+    rng = random.Random(1409)
+    cases = []
+    for ti, t in enumerate(mirror_corpus()):
+        for ri, route in enumerate(ROUTES):
+            lens = _mirror_lens(t, route)
+            cand = candidate_vars(lens)
+            vars_ = []
+            for c in cand:
+                if c[0] in ('tilt', 'decenter') and (c[1] + ri) % 2:
+                    continue
+                vars_.append(mkvar(rng, lens, c, scaled=((len(vars_) + ri) % 2 == 0)))
+            ops = []
+            for i, v in enumerate(vars_):
+                raw = raw_of(lens, (v['type'], v['surf'], v['a'], v['b']))
+                newraw = raw + SPAN[v['type']] * rng.uniform(-1, 1)
+                if v['type'] == 'thickness':
+                    newraw = max(newraw, 0.3) if raw > 0 else min(newraw, -0.3)
+                ops.append([i, float(py_scale(v, newraw) if v['scaled'] else newraw).hex()])
+            cases.append({'lens': lens, 'vars': vars_, 'ops': ops, 'coords': coords_for(lens, vars_)})
+    return cases
+
+
+MIRROR_FES = [('generic', {'disp': False, 'maxiter': 25}), ('least_squares', {'maxiter': 25}),
+              ('differential_evolution', {'maxiter': 2, 'disp': False, 'workers': 1}),
+              ('dual_annealing', {'maxiter': 3, 'disp': False}), ('compensator:generic', {})]
+
+
+def gen_mirror_opt_cases(n=None):
+    """optimise the (negative) mirror-to-next-vertex gap, alone or with a radius, through every front end"""
+    rng = random.Random(1410)
+    cases = []
+    corpus = mirror_corpus()
+    for i in range(n or 10):
+        t = corpus[i % len(corpus)]
+        fe, kw = MIRROR_FES[(i + i // len(corpus)) % len(MIRROR_FES)]
+        lens = _mirror_lens(t, ROUTES[i % len(ROUTES)])
+        neg = [k + 1 for k, s_ in enumerate(lens['surfs']) if s_['thickness'] < 0]
+        k = neg[(i // len(corpus)) % len(neg)]
+        raw = lens['surfs'][k - 1]['thickness']
+        vars_ = [{'type': 'thickness', 'surf': k, 'a': 0, 'b': 0, 'scaled': i % 2 == 0, 'min': raw - 12.0, 'max': raw + 12.0}]
+        if i % 3 == 0:
+            r = lens['surfs'][0]['radius']
+            vars_.append({'type': 'radius', 'surf': 1, 'a': 0, 'b': 0, 'scaled': True, 'min': r - 30.0, 'max': r + 30.0})
+        ops = [{'type': 'real_y_intercept', 'target': 0.0, 'weight': 2.0,
+                'data': {'surface_number': -1, 'Hx': 0.0, 'Hy': 0.0, 'Px': 0.0, 'Py': 1.0, 'wavelength': 0.55}},
+               {'type': 'real_y_intercept', 'target': 0.0, 'weight': 2.0,
+                'data': {'surface_number': -1, 'Hx': 0.0, 'Hy': 0.0, 'Px': 0.0, 'Py': 0.6, 'wavelength': 0.55}}]
+        cases.append({'lens': lens, 'vars': vars_, 'ops': ops, 'coords': coords_for(lens, vars_), 'frontend': fe, 'kwargs': kw,
+                      'steps': ['opt'] if fe.startswith('compensator') else ['opt', 'undo'], 'np_seed': 100 + i, 'mirror': True})
+    return cases
+
+
 def check_handle(cases, obs, tag):
     """returns (disagreements, nontrivial, kin) - Coq model vs implementation, plus the direct oracle"""
     B = Bools()
@@ -514,7 +603,28 @@ def check_handle(cases, obs, tag):
                             'others_unchanged': okoth, 'model_agrees': (ci, 'step', si) not in bad,
                             'violates_property': not (okset and okoth), 'replay': {'mode': 'handle', 'case': c}})
             prev = cur
-        if (ci, 'values0') in bad:
+        # the lens built is the prescription entered, and a variable reads scale(prescription value): both judged against
+        # the generated prescription, never against a getter of the implementation
+        pres_bad = []
+        for xi, (cc_, r0) in enumerate(zip(c['coords'], o['raw0'])):
+            want = raw_of(c['lens'], (cc_['type'], cc_['surf'], cc_.get('a', 0), cc_.get('b', 0)))
+            if want is not None and not near(hx(r0), want):
+                pres_bad.append({'coord': cc_, 'lens_holds': hx(r0), 'prescription': want})
+        if pres_bad:
+            dis.append({'case': ci, 'clause': 'prescription', 'route': c['lens'].get('route', 'direct'), 'differing': pres_bad[:4],
+                        'violates_property': True, 'replay': {'mode': 'handle', 'case': c}})
+        read_bad = []
+        for v, got in zip(c['vars'], o['values0']):
+            raw = raw_of(c['lens'], (v['type'], v['surf'], v.get('a', 0), v.get('b', 0)))
+            if raw is None:
+                continue
+            want = py_scale(v, raw) if v.get('scaled', True) else raw
+            if not near(hx(got), want):
+                read_bad.append({'var': v, 'value_read': hx(got), 'expected_from_prescription': want, 'prescription_value': raw})
+        if read_bad and not pres_bad:
+            dis.append({'case': ci, 'clause': 'value-read', 'route': c['lens'].get('route', 'direct'), 'differing': read_bad[:4],
+                        'model_agrees': (ci, 'values0') not in bad, 'violates_property': True, 'replay': {'mode': 'handle', 'case': c}})
+        elif (ci, 'values0') in bad and not pres_bad:
             dis.append({'case': ci, 'clause': 'value-read', 'violates_property': False, 'replay': {'mode': 'handle', 'case': c}})
         for vi, (v, b) in enumerate(zip(c['vars'], o['bounds'])):
             got = (hx(b[0]), hx(b[1]))
@@ -1209,7 +1319,7 @@ def system_checks(ctx):
     except RuntimeError as e:
         yield {'name': 'batched-scale-kernels', 'n': 0, 'error': str(e)}
     # (a) handles
-    cases = gen_boundary_handle_cases() + gen_handle_cases(rng, ctx.n(30, 400))
+    cases = gen_mirror_handle_cases() + gen_boundary_handle_cases() + gen_handle_cases(rng, ctx.n(30, 400))
     res = {'name': 'variable-handles-vs-model', 'n': len(cases), 'nontrivial': 0, 'samples': [], 'disagreements': []}
     try:
         obs = vlib.run_python(HARNESS, {'mode': 'handle', 'cases': cases})
@@ -1221,7 +1331,11 @@ def system_checks(ctx):
             for v in c['vars']:
                 k = v['type'] + ('' if v['scaled'] else '/unscaled') + ('/bounded' if 'min' in v else '')
                 types[k] = types.get(k, 0) + 1
-        res['histogram'] = types
+        res['histogram'] = {'variables': types,
+                            'mirror_corpus_cases': sum(1 for c in cases if c['lens'].get('corpus')),
+                            'negative_thickness_variables': sum(1 for c in cases for v in c['vars'] if v['type'] == 'thickness'
+                                                                and (raw_of(c['lens'], (v['type'], v['surf'], 0, 0)) or 0) < 0),
+                            'construction_routes': {r_: sum(1 for c in cases if c['lens'].get('route', 'direct') == r_) for r_ in ROUTES}}
         res['samples'] = [{'vars': cases[0]['vars'][:2], 'ops': cases[0]['ops'][:2]}]
         yield res
         kd, kn = check_kin(cases, obs, ctx.manifests, 'C14k')
@@ -1261,7 +1375,7 @@ def system_checks(ctx):
         res['error'] = str(e)
     yield res
     # (c) optimise / undo
-    cases = gen_opt_cases(rng, ctx.n(21, 210)) + gen_boundary_opt_cases(rng, ctx.n(10, 60)) + gen_preopt_cases(rng, ctx.n(8, 64))
+    cases = gen_opt_cases(rng, ctx.n(21, 210)) + gen_boundary_opt_cases(rng, ctx.n(10, 60)) + gen_preopt_cases(rng, ctx.n(8, 64)) + gen_mirror_opt_cases(ctx.n(10, 30))
     res = {'name': 'optimise-undo-vs-model', 'n': len(cases), 'nontrivial': 0, 'samples': [], 'disagreements': []}
     try:
         obs = run_opt_cases(cases, 'C14o')
@@ -1273,6 +1387,8 @@ def system_checks(ctx):
         res['histogram'] = {'frontends': fes, 'clauses_violated': hist,
                             'with_pickups': sum(1 for c in cases if c['lens']['pickups']),
                             'boundary_runs': sum(1 for c in cases if c.get('boundary')),
+                            'mirror_system_runs(negative gap variable)': sum(1 for c in cases if c.get('mirror')),
+                            'construction_routes': {r_: sum(1 for c in cases if c['lens'].get('route', 'direct') == r_) for r_ in ROUTES},
                             'preoptimised_start_tiny_budget_runs': sum(1 for c in cases if c.get('preoptimised')),
                             'd07_configurations': sum(1 for c in cases if d07_config(c['vars']))}
         res['samples'] = [{'frontend': cases[0]['frontend'], 'vars': cases[0]['vars'], 'steps': cases[0]['steps']}]
@@ -1287,13 +1403,13 @@ def system_checks(ctx):
 def search(ctx, broken, disagreements):
     rng = random.Random(ctx.seed * 77 + 5)
     found = []
-    cases = gen_boundary_handle_cases() + gen_handle_cases(rng, ctx.n(40, 300))
+    cases = gen_mirror_handle_cases() + gen_boundary_handle_cases() + gen_handle_cases(rng, ctx.n(40, 300))
     obs = vlib.run_python(HARNESS, {'mode': 'handle', 'cases': cases})
     found += [d for d in _handle_oracle(cases, obs)]
     cases = gen_merit_cases(rng, ctx.n(30, 200))
     obs = vlib.run_python(HARNESS, {'mode': 'merit', 'cases': cases})
     found += [d for d in check_merit_oracle(cases, obs)]
-    cases = gen_preopt_cases(rng, ctx.n(16, 64)) + gen_boundary_opt_cases(rng, ctx.n(12, 60)) + gen_opt_cases(rng, ctx.n(28, 140))
+    cases = gen_mirror_opt_cases(ctx.n(10, 30)) + gen_preopt_cases(rng, ctx.n(16, 64)) + gen_boundary_opt_cases(rng, ctx.n(12, 60)) + gen_opt_cases(rng, ctx.n(28, 140))
     obs = run_opt_cases(cases, 'C14s')
     hist = {}
     for ci, (c, o) in enumerate(zip(cases, obs)):
@@ -1314,6 +1430,15 @@ def _handle_oracle(cases, obs):
         if 'err' in o:
             continue
         o = o['ok']
+        for v, got in zip(c['vars'], o['values0']):
+            raw = raw_of(c['lens'], (v['type'], v['surf'], v.get('a', 0), v.get('b', 0)))
+            if raw is None:
+                continue
+            want = py_scale(v, raw) if v.get('scaled', True) else raw
+            if not near(hx(got), want):
+                yield {'case': ci, 'clause': 'value-read', 'route': c['lens'].get('route', 'direct'), 'var': v, 'value_read': hx(got),
+                       'expected_from_prescription': want, 'violates_property': True, 'replay': {'mode': 'handle', 'case': c}}
+                break
         prev = [hx(x) for x in o['values0']]
         for si, ((i, x), st) in enumerate(zip(c['ops'], o['steps'])):
             cur = [hx(v) for v in st['values']]
